@@ -362,7 +362,7 @@ func checkC13(c *Ctx, r *Report) {
 					return
 				}
 				fv, _, is := fieldOf(st.Addr)
-				if !is || fv.Name() != "priority" {
+				if !is || fname(fv) != "priority" {
 					return
 				}
 				found = true
@@ -415,7 +415,7 @@ func checkC13(c *Ctx, r *Report) {
 						return
 					}
 					fv, _, is := fieldOf(st.Addr)
-					if !is || fv.Name() != "isExpired" {
+					if !is || fname(fv) != "isExpired" {
 						return
 					}
 					if mc, isMC := st.Val.(*ssa.MakeClosure); isMC {
